@@ -18,7 +18,12 @@ type encItem struct {
 	pos token.Pos
 }
 
-// encList decodes a []*pb.FieldData literal: element i = intEnc(uint64(x)).
+// encList decodes a []*pb.FieldData list of fixed length: element i = intEnc(uint64(x)). The list is an
+// array cell seen whole through one slice of it; its elements are written either into the array before it is
+// sliced (a composite literal) or through that slice (a slice made with a constant length and filled
+// `l[i] = …`). Filled through the slice, nothing makes the writes one per position as a literal does, so
+// that is required here: every position of the array written exactly once, under a constant index, before
+// the list is used for anything else — otherwise the list is not decoded (and its rules fail).
 func encList(v ssa.Value) []encItem {
 	sl, ok := v.(*ssa.Slice)
 	if !ok {
@@ -33,26 +38,69 @@ func encList(v ssa.Value) []encItem {
 		it  encItem
 	}
 	var items []kv
+	var addrs []*ssa.IndexAddr
 	if refs := arr.Referrers(); refs != nil {
 		for _, rf := range *refs {
-			ia, ok := rf.(*ssa.IndexAddr)
-			if !ok {
+			if ia, ok := rf.(*ssa.IndexAddr); ok {
+				addrs = append(addrs, ia)
+			}
+		}
+	}
+	if at, isArr := derefUnder(arr.Type()).(*types.Array); isArr && sl.Referrers() != nil {
+		whole := sl.Low == nil && sl.Max == nil
+		if sl.High != nil {
+			h, isK := constInt(sl.High)
+			whole = whole && isK && h == at.Len()
+		}
+		var uses []ssa.Instruction // what the filled list is used for
+		var thru []*ssa.IndexAddr
+		for _, rf := range *sl.Referrers() {
+			switch x := rf.(type) {
+			case *ssa.DebugRef:
+			case *ssa.IndexAddr:
+				thru = append(thru, x)
+			default:
+				uses = append(uses, rf)
+			}
+		}
+		if len(thru) > 0 {
+			if !whole {
+				return nil
+			}
+			seen := map[int64]bool{}
+			for _, ia := range thru {
+				k, isK := constInt(ia.Index)
+				sts := directStores(ia)
+				if !isK || seen[k] || len(sts) != 1 {
+					return nil
+				}
+				seen[k] = true
+				for _, u := range uses {
+					if !instrDominates(sts[0], u) {
+						return nil
+					}
+				}
+			}
+			if int64(len(seen)) != at.Len() || len(addrs) > 0 {
+				return nil
+			}
+			addrs = thru
+		}
+	}
+	for _, ia := range addrs {
+		k, _ := constInt(ia.Index)
+		for _, st := range directStores(ia) {
+			c, ok := st.Val.(*ssa.Call)
+			if !ok || len(c.Call.Args) != 1 {
+				items = append(items, kv{k, encItem{sym: symOf(st.Val), raw: st.Val, pos: st.Pos()}})
 				continue
 			}
-			k, _ := constInt(ia.Index)
-			for _, st := range directStores(ia) {
-				c, ok := st.Val.(*ssa.Call)
-				if !ok || len(c.Call.Args) != 1 {
-					items = append(items, kv{k, encItem{sym: symOf(st.Val), raw: st.Val, pos: st.Pos()}})
-					continue
-				}
-				arg := c.Call.Args[0]
-				raw := arg
-				if cv, ok := arg.(*ssa.Convert); ok {
-					raw = cv.X
-				}
-				items = append(items, kv{k, encItem{sym: symOf(raw), raw: raw, pos: st.Pos()}})
+			arg := c.Call.Args[0]
+			raw := arg
+			if cv, ok := arg.(*ssa.Convert); ok {
+				raw = cv.X
 			}
+			items = append(items, kv{k, encItem{sym: symOf(raw), raw: raw, pos: st.Pos()}})
 		}
 	}
 	sort.Slice(items, func(i, j int) bool { return items[i].idx < items[j].idx })
@@ -441,6 +489,120 @@ func ruleC03Actions(w *World, r *Report, bc *BessConf) {
 	r.check(bad == "", "R03.3", fn, "FAR action: forward→D/U by interface, drop, buffer/notify→notify, else drop (all applyAction × dstIntf)", w.Pos(f.Pos()), fmt.Sprintf("%d valuations", n), "setActionValue: "+bad)
 }
 
+// listAlternatives: the "param.field" a value can be, following the choice (φ, or the whole-struct stores
+// into a local struct cell that is otherwise only read field by field) down to fields of struct parameters.
+// An alternative that is anything else is reported as "?" (with its text), so that a list computed some
+// other way never passes for a parameter's list.
+func listAlternatives(v ssa.Value, depth int) []string {
+	if depth > 8 {
+		return []string{"?deep"}
+	}
+	fieldName := func(t types.Type, i int) string {
+		if st := derefStruct(t); st != nil && i < st.NumFields() {
+			return st.Field(i).Name()
+		}
+		return "?"
+	}
+	// the struct values a struct-typed value can be: parameters, chosen by φ or by stores into a local copy
+	var structs func(s ssa.Value, d int) []string
+	structs = func(s ssa.Value, d int) []string {
+		if d > 8 {
+			return []string{"?deep"}
+		}
+		switch x := s.(type) {
+		case *ssa.Parameter:
+			return []string{x.Name()}
+		case *ssa.Phi:
+			var out []string
+			for _, e := range x.Edges {
+				out = append(out, structs(e, d+1)...)
+			}
+			return out
+		case *ssa.UnOp:
+			if cell, ok := x.X.(*ssa.Alloc); ok && x.Op == token.MUL {
+				return cellStructs(cell, structs, d)
+			}
+		}
+		return []string{"?" + valueText(s)}
+	}
+	switch x := v.(type) {
+	case *ssa.Phi:
+		var out []string
+		for _, e := range x.Edges {
+			out = append(out, listAlternatives(e, depth+1)...)
+		}
+		return out
+	case *ssa.Field:
+		var out []string
+		for _, s := range structs(x.X, depth+1) {
+			out = append(out, s+"."+fieldName(x.X.Type(), x.Field))
+		}
+		return out
+	case *ssa.UnOp:
+		if fa, ok := x.X.(*ssa.FieldAddr); ok && x.Op == token.MUL {
+			if cell, ok := fa.X.(*ssa.Alloc); ok {
+				var out []string
+				for _, s := range cellStructs(cell, structs, depth) {
+					out = append(out, s+"."+fieldName(cell.Type(), fa.Field))
+				}
+				return out
+			}
+		}
+	}
+	return []string{"?" + valueText(v)}
+}
+
+// cellStructs: what a local struct cell holds — the values of its whole-struct stores — provided the cell
+// is otherwise only read (whole, or field by field): a field-wise store or an escaping address would let
+// a field be something no whole-struct store put there.
+func cellStructs(cell *ssa.Alloc, structs func(ssa.Value, int) []string, d int) []string {
+	readOnly := func(addr ssa.Value) bool {
+		if addr.Referrers() == nil {
+			return false
+		}
+		for _, r := range *addr.Referrers() {
+			switch y := r.(type) {
+			case *ssa.DebugRef:
+			case *ssa.UnOp:
+				if y.Op != token.MUL {
+					return false
+				}
+			default:
+				return false
+			}
+		}
+		return true
+	}
+	var out []string
+	if cell.Referrers() == nil {
+		return []string{"?unwritten"}
+	}
+	for _, r := range *cell.Referrers() {
+		switch y := r.(type) {
+		case *ssa.DebugRef:
+		case *ssa.UnOp:
+			if y.Op != token.MUL {
+				return []string{"?" + valueText(cell)}
+			}
+		case *ssa.FieldAddr:
+			if !readOnly(y) {
+				return []string{"?" + valueText(cell)}
+			}
+		case *ssa.Store:
+			if y.Addr != ssa.Value(cell) {
+				return []string{"?" + valueText(cell)}
+			}
+			out = append(out, structs(y.Val, d+1)...)
+		default:
+			return []string{"?" + valueText(cell)}
+		}
+	}
+	if len(out) == 0 {
+		return []string{"?unwritten"}
+	}
+	return out
+}
+
 // ruleC03Dispatch: bess.SendMsgToUPF routes add/mod to add*, del to del*, mod uses the updated rules.
 func ruleC03Dispatch(w *World, r *Report) {
 	const P = "C03"
@@ -478,27 +640,41 @@ func ruleC03Dispatch(w *World, r *Report) {
 			r.check(strings.Contains(s, "PacketForwardingRules."+kind), "R03.1", fn, name+" gets an element of the "+kind+" list", w.Pos(c.Pos()), trunc80(s), name+" is given "+trunc80(s))
 		}
 	}
-	// for modify the lists are the updated ones
-	var phis []*ssa.Phi
+	// for modify the lists are the updated ones. A rule list is chosen between the two parameter structs
+	// either list by list (a φ of rules.k and updated.k) or struct-wise (the struct is chosen first — a φ
+	// of the two parameters, or a local copy written once per alternative — and the list taken from the
+	// chosen struct): either way the list is one whose alternatives are the same field k of `rules` and of
+	// `updated`, and there is one such list per rule kind.
+	var sels []ssa.Value
 	allInstrs(f, func(i ssa.Instruction) {
-		if p, ok := i.(*ssa.Phi); ok && len(p.Edges) == 2 {
-			if _, isSlice := p.Type().Underlying().(*types.Slice); isSlice {
-				phis = append(phis, p)
-			}
+		v, ok := i.(ssa.Value)
+		if !ok {
+			return
 		}
-	})
-	okSel := len(phis) >= 3
-	desc := ""
-	for _, p := range phis {
-		var roots []string
-		for _, e := range p.Edges {
-			s := symOf(e)
-			for _, rt := range s.Roots() {
-				if pp, ok := rt.(*ssa.Parameter); ok {
-					roots = append(roots, pp.Name()+"."+s.String()[strings.LastIndex(s.String(), ".")+1:])
+		if _, isSlice := v.Type().Underlying().(*types.Slice); !isSlice {
+			return
+		}
+		switch x := i.(type) {
+		case *ssa.Phi:
+			if len(x.Edges) == 2 {
+				sels = append(sels, x)
+			}
+		case *ssa.Field:
+			if p, ok := x.X.(*ssa.Phi); ok && len(p.Edges) == 2 {
+				sels = append(sels, x)
+			}
+		case *ssa.UnOp:
+			if fa, ok := x.X.(*ssa.FieldAddr); ok && x.Op == token.MUL {
+				if cell, ok := fa.X.(*ssa.Alloc); ok && len(storesTo(cell)) == 2 {
+					sels = append(sels, x)
 				}
 			}
 		}
+	})
+	okSel := len(sels) >= 3
+	desc := ""
+	for _, p := range sels {
+		roots := listAlternatives(p, 0)
 		sort.Strings(roots)
 		desc += "[" + strings.Join(roots, "|") + "] "
 		if len(roots) != 2 || !strings.HasPrefix(roots[0], "rules.") || !strings.HasPrefix(roots[1], "updated.") || roots[0][6:] != roots[1][8:] {
